@@ -1,3 +1,5 @@
 import GraphSlam.Props.C04.Linear
 import GraphSlam.Props.C03.Assembled
+import GraphSlam.Props.C04.Instances
+import GraphSlam.Props.Tie.GraphPy
 /-! C04 — umbrella. -/
